@@ -229,3 +229,47 @@ def rule_where_order(ctx):
                               f"`{src_of(a)[:50]}` (line {a.lineno}) is assigned outside the branch on the original site order: for where=(larger, smaller) "
                               f"the gate is applied with its two legs exchanged", where=where, operand=f"line-independent:{src_of(a.value)[:30]}"))
     return r
+
+
+def rule_fresh_bond_names(ctx):
+    r = RuleResult(
+        "fresh-bond-names",
+        "an index that a gate routine creates and leaves inside the caller's network (the bond of a split gate / split "
+        "tensor) is named by rand_uuid() or by a caller-supplied parameter, never by a string literal: a literal name "
+        "silently merges with any existing index of the same name (hyper-index) and changes the network's value",
+    )
+    mod = ctx.prog.modules.get("quimb.tensor.gating")
+    if mod is None:
+        raise AnalysisError("quimb.tensor.gating not found")
+    n = 0
+    for f in mod.all_functions:
+        if f.is_alias or isinstance(f.node, ast.Lambda):
+            continue
+        defs = {}
+        for x in ast.walk(f.node):
+            if isinstance(x, ast.Assign) and len(x.targets) == 1 and isinstance(x.targets[0], ast.Name):
+                defs.setdefault(x.targets[0].id, []).append(x.value)
+        literal_bonds = set()
+        for c in ast.walk(f.node):
+            if not isinstance(c, ast.Call):
+                continue
+            for kw in c.keywords:
+                if kw.arg != "bond_ind":
+                    continue
+                n += 1
+                v = kw.value
+                where = f"{f.module.relpath}:{c.lineno}"
+                if isinstance(v, ast.Constant) and isinstance(v.value, str):
+                    literal_bonds.add(v.value)
+                    r.bad(Finding("fresh-bond-names", f.qualname,
+                                  f"`{src_of(c.func)}(..., bond_ind={v.value!r})` creates an index with the fixed name {v.value!r} that stays in the gated network: "
+                                  f"if the target already has an index {v.value!r} the two are silently identified",
+                                  where=where, operand=f"bond_ind={v.value}"))
+                elif isinstance(v, ast.Constant) and v.value is None:
+                    r.ok(f"{f.qualname}@{c.lineno}", nontrivial=False)
+                elif isinstance(v, ast.Name) and (v.id in f.params or any(isinstance(d, ast.Call) and (getattr(d.func, "id", None) or getattr(d.func, "attr", None)) == "rand_uuid" for d in defs.get(v.id, []))):
+                    r.ok(f"{f.qualname}@{c.lineno}", sample={"function": f.qualname, "bond": v.id, "from": "rand_uuid()" if v.id not in f.params else "parameter"})
+                else:
+                    r.skip(f"{f.qualname}@{c.lineno}", f"bond name `{src_of(v)}` provenance not followed")
+    r.floor(n, 5, "bond_ind= sites in gating.py")
+    return r
